@@ -110,7 +110,12 @@ public:
   }
 
   void add_task(std::function<void()> &&task) {
-    queue.add_task(task);
+    {
+      // (a worker between its wait predicate and its blocking holds this mutex:
+      // the state cannot change, and the notification be lost, in that window)
+      std::lock_guard lg(shared_mutex);
+      queue.add_task(task);
+    }
     LIBCSD_VERIF_POINT(PT_POOL_ENQUEUED, 0, 0);
     queue_cv.notify_all();
     LIBCSD_VERIF_POINT(PT_POOL_NOTIFIED, 0, 0);
@@ -122,8 +127,11 @@ public:
   }
 
   void stop_all_workers() {
-    for (auto &w : workers)
-      w->stop();
+    {
+      std::lock_guard lg(shared_mutex);
+      for (auto &w : workers)
+        w->stop();
+    }
     LIBCSD_VERIF_POINT(PT_POOL_STOP_SET, 0, 0);
     queue_cv.notify_all();
     LIBCSD_VERIF_POINT(PT_POOL_STOP_DONE, 0, 0);
